@@ -250,6 +250,8 @@ func opsMain() int {
 					die("clear: %v", e)
 				}
 				ans = "ok"
+			case "nonprint":
+				ans = "ok" // parameter of the model only: Go uses its own unicode tables
 			case "clean":
 				c := hx(path.Clean(unhex(w[2])))
 				ans = c + " " + c
@@ -316,6 +318,15 @@ func main() {
 			}
 			return "miss"
 		}))
+	case "isprint":
+		// prints the runes of the comma-separated list for which strconv.IsPrint is false
+		var out []string
+		for _, x := range strings.Split(os.Args[2], ",") {
+			if n, err := strconv.Atoi(x); err == nil && !strconv.IsPrint(rune(n)) {
+				out = append(out, x)
+			}
+		}
+		fmt.Println(strings.Join(out, ","))
 	case "fp":
 		fmt.Println(newBlob(payloadSpec(os.Args[2])).fp())
 	case "build":
